@@ -46,8 +46,10 @@ def run(ctx):
     identity.check_keys(ctx, rep, "C06", "R06.9", ["kv"])
 
 
-def variant_table(fx, fn, self_name="self"):
-    """rows of a match-only function: {variant name: return term}"""
+def variant_table(fx, fn, self_name="self", variants=None):
+    """rows of a match-only function: {variant name: [return terms]}.  A row can select its variant positively
+    (`match x { V => .. }`) or negatively (`matches!(x, V)` false, `_ =>` arms): with the list of all variants a negative
+    row is filed under every variant it does not exclude."""
     eng = sym.Engine(fx)
     rows = eng.table(fn["id"])
     out = {}
@@ -55,9 +57,17 @@ def variant_table(fx, fn, self_name="self"):
         if r.exit != "return":
             continue
         v = None
+        excluded = set()
         for c in r.cond:
             if c[0] == "variant" and c[3]:
                 v = c[2]
+            elif c[0] == "variant" and not c[3]:
+                excluded |= set(c[2]) if isinstance(c[2], (tuple, list)) else {c[2]}
+        if v is None and excluded and variants:
+            for w in variants:
+                if w not in excluded:
+                    out.setdefault(w, []).append(r.ret)
+            continue
         out.setdefault(v, []).append(r.ret)
     return out
 
@@ -75,14 +85,14 @@ def r06_1(ctx, rep, roles):
     ]
     for fn, spec, nm in specs:
         rep.anchor(nm, where(fn))
-        tbl = variant_table(fx, fn)
+        tbl = variant_table(fx, fn, variants=list(spec))
         for v, want in spec.items():
             got = tbl.get(v)
             rep.obligation(got == [want], "C06/R06.1/%s/%s" % (nm, v), "%s(%s) = %s, expected %s" % (
                 nm, v, [sym.fmt(g) for g in got or []], sym.fmt(want)), where(fn), sample="%s(%s) = %s" % (nm, v, sym.fmt(want)))
         rep.instance(len(spec))
     # time_of_start: Set -> None, others Some(payload)
-    tbl = variant_table(fx, f_time)
+    tbl = variant_table(fx, f_time, variants=["Set", "Deleted", "DeleteAfterTtl"])
     rep.anchor("time_of_start_scheduled_for_deletion", where(f_time))
     for v in ("Set", "Deleted", "DeleteAfterTtl"):
         got = tbl.get(v) or []
@@ -93,7 +103,7 @@ def r06_1(ctx, rep, roles):
         rep.obligation(ok, "C06/R06.1/time_of_start/%s" % v, "time_of_start_scheduled_for_deletion(%s) = %s" % (v, [sym.fmt(g) for g in got]),
                        where(f_time), sample="time_of_start(%s) = %s" % (v, "None" if v == "Set" else "Some(instant carried by the status)"))
     # into_status
-    tbl = variant_table(fx, f_into)
+    tbl = variant_table(fx, f_into, variants=["Set", "Delete", "DeleteAfterTtl"])
     rep.anchor("into_status", where(f_into))
     want = {"Set": "Set", "Delete": "Deleted", "DeleteAfterTtl": "DeleteAfterTtl"}
     for v, w in want.items():
@@ -130,9 +140,17 @@ def closure_variant_table(fx, eng, clo):
     arg = ("ptr", ("S", "entry"), ())
     for s2, ret in sym.call_closure(eng, st, clo, [arg], 0, ("closure", 0)):
         v = None
+        excluded = set()
         for c in s2.cond:
             if c[0] == "variant" and c[3] and T.last_field(c[1]) == (VV, "status"):
                 v = c[2]
+            elif c[0] == "variant" and not c[3] and T.last_field(c[1]) == (VV, "status"):
+                excluded |= set(c[2]) if isinstance(c[2], (tuple, list)) else {c[2]}
+        if v is None and excluded:
+            for w in kv.STATUS_VARIANTS:
+                if w not in excluded:
+                    res.setdefault(w, []).append(ret)
+            continue
         res.setdefault(v, []).append(ret)
     return res
 
@@ -186,7 +204,7 @@ def r06_2(ctx, rep, roles):
             info = kv.cond_info(row)
             present = info["present"]
             st = info["status"]
-            visible = present is True and st is not None and st[1] is True and st[0] != "Deleted"
+            visible = present is True and kv.status_visible(info)
             is_some = sym.is_some(row.ret)
             rep.obligation(is_some == visible and (is_some or sym.is_none(row.ret)), "C06/R06.2/get/table",
                            "get returns %s when present=%s status=%s" % (sym.fmt(row.ret)[:60], present, st), where(g),
